@@ -56,6 +56,7 @@ type Obligation struct {
 
 // FnCtx is the verification context of one top-level function (one Script).
 type FnCtx struct {
+	staleInv map[string]bool // loop invariants already reported as stale (file:line)
 	topFn     *ssa.Function // the function under verification and its symbolic parameters (model replay)
 	topParams []Val
 	eng       *Engine
@@ -648,6 +649,19 @@ func splitGoal(goal *Term) []*Term {
 	}
 	rec(n, nil)
 	return out
+}
+
+// obligeUnassumed records an obligation WITHOUT assuming it afterwards (used for reports that must not make the rest
+// of the path vacuous, e.g. a stale invariant: goal false, yet the function is still executed and checked)
+func (fc *FnCtx) obligeUnassumed(st *State, kind, path string, goal *Term, pos token.Position, desc string) *Obligation {
+	key := path + kind
+	fc.kindCount[key]++
+	name := fmt.Sprintf("%s/%s%s#%d", fc.key, path, kind, fc.kindCount[key])
+	neg := And(st.reach, Not(goal))
+	o := &Obligation{Name: name, Kind: kind, Func: fc.key, NFacts: len(fc.sc.facts), NegGoal: neg.S, Pos: pos, Desc: desc, Script: fc.sc, Ctx: fc}
+	o.QF = !strings.Contains(neg.S, "(forall ") && !strings.Contains(neg.S, "(exists ")
+	fc.obls = append(fc.obls, o)
+	return o
 }
 
 func (fc *FnCtx) oblige1(st *State, kind, path string, goal *Term, pos token.Position, desc string) *Obligation {
